@@ -241,6 +241,7 @@ func (e *Engine) callBuiltin(s *State, gi int, b *ssa.Builtin, args []Value) Val
 			if x.obj == 0 {
 				return ts.Const(64, 0)
 			}
+			e.raceMap(s, gi, x.obj, false, nil)
 			return ts.Const(64, uint64(len(e.obj(s, x.obj).m.keys)))
 		case ChanV:
 			if x.obj == 0 {
@@ -302,6 +303,7 @@ func (e *Engine) callBuiltin(s *State, gi int, b *ssa.Builtin, args []Value) Val
 		if m.obj == 0 {
 			return nil
 		}
+		e.raceMap(s, gi, m.obj, true, nil)
 		i := e.mapFind(s, e.obj(s, m.obj).m, args[1])
 		if i >= 0 {
 			o := e.wobj(s, m.obj)
